@@ -13,7 +13,7 @@ Events == ndJsonDeserialize(IOEnv.TRACE_FILE)
 
 VARIABLE i
 
-MaxMeasuredDim == 8
+MaxMeasuredDim == 16
 
 MeasuredOK(e) ==      \* the measured facts are well-formed and mutually consistent
     LET c == e.cfg  mn == MinOf(c.m, c.n) IN
